@@ -331,7 +331,8 @@ def task_sim_sampler_args(task):
             try:
                 m1, m2 = d.get_moment(1), d.get_moment(2)
                 import sympy as sp
-                m1, m2 = sp.nsimplify(sp.sympify(str(m1))), sp.nsimplify(sp.sympify(str(m2)))
+                import exppoly
+                m1, m2 = exppoly.exact(sp.sympify(str(m1))), exppoly.exact(sp.sympify(str(m2)))
                 item["m1"] = f"{m1.p}/{m1.q}" if m1.is_Rational else None
                 item["m2"] = f"{m2.p}/{m2.q}" if m2.is_Rational else None
             except Exception as e:  # noqa
@@ -359,7 +360,8 @@ def _support(d):
             return "oo"
         if x == -sp.oo:
             return "-oo"
-        x = sp.nsimplify(x)
+        import exppoly
+        x = exppoly.exact(x)
         if not x.is_Rational:
             raise ValueError(f"non-rational support bound {x}")
         return f"{x.p}/{x.q}"
@@ -438,7 +440,8 @@ def task_sim_analysis(task):
         sol = sp.sympify(sol)
         vals = []
         for i in range(task["N"] + 1):
-            v = sp.nsimplify(sp.simplify(sol.xreplace({n: sp.Integer(i)}).subs(sp.Symbol("n"), i)))
+            import exppoly
+            v = exppoly.exact(sol.xreplace({n: sp.Integer(i)}).subs(sp.Symbol("n"), i))
             if not v.is_Rational:
                 vals.append("~" + str(v))
             else:
